@@ -12,7 +12,7 @@ UNITS.append(dict(
     name='mpz_tstbit', props=['C10', 'C04', 'C15'], source='mpz/tstbit.c', contracts=['mpz.h', 'c10.h'], enforce=['__gmpz_tstbit'],
     functions={'__gmpz_tstbit': dict(
         inserts=[(r'limb = \*p;', r'\g<0> __CPROVER_assume (limb_index >= g_lz || limb == 0);   /* g_lz instantiated at the limb just read */')],
-        loops={0: dict(scalars=['limb'], havoc_targets=['p'], havoc='{ long V_d = nondet_long (); __CPROVER_assume (0 <= V_d && V_d <= limb_index); p = u_ptr + V_d; }',
+        loops={0: dict(scalars=['limb'], havoc_targets=['p'], havoc='{ long V_d = nondet_long (); __CPROVER_assume (0 <= V_d && V_d <= limb_index); p = u_ptr + V_d; }', havoc_inv={'V_d': '(p - u_ptr)'},
                        inv='''(p >= u_ptr && p <= u_ptr + limb_index && __CPROVER_same_object (p, u_ptr) && limb == -u_ptr[limb_index] && limb_index < (long) abs_size && size < 0
                            && (g_lz < limb_index ==> p > u_ptr + g_lz))''', dec='p - u_ptr',
                        begin='__CPROVER_assume ((p - 1 - u_ptr) >= g_lz || p[-1] == 0);   /* g_lz: instantiated at the limb read next */')})},
@@ -32,7 +32,7 @@ def skip_full(want_tc_bit):
 LOW = '((((mp_limb_t) 1) << (starting_bit % 64)) - 1)'
 Q_INV = '''(q >= u_ptr && q <= p && __CPROVER_same_object (q, u_ptr) && p == u_ptr + V_s && V_s < V_n && V_n == abs_size && size < 0 && V_found == 0 && u_ptr == u->_mp_d && u_end == u_ptr + V_n
         && limb == u_ptr[V_s] && (g_lz < V_s ==> q > u_ptr + g_lz))'''
-Q_LOOP = dict(scalars=['V_found'], havoc_targets=['q'], havoc='{ long V_d = nondet_long (); __CPROVER_assume (0 <= V_d && V_d <= V_s); q = u_ptr + V_d; }',
+Q_LOOP = dict(scalars=['V_found'], havoc_targets=['q'], havoc='{ long V_d = nondet_long (); __CPROVER_assume (0 <= V_d && V_d <= V_s); q = u_ptr + V_d; }', havoc_inv={'V_d': '(q - u_ptr)'},
               inv=Q_INV, dec='q - u_ptr', begin='__CPROVER_assume ((q - 1 - u_ptr) >= g_lz || q[-1] == 0);')
 COMMON_INS = [DECL_INS, (r'if \(size >= 0\)', r'__CPROVER_assume (starting_limb >= g_lz || limb == 0); \g<0>'),
               (r'goto inverted;', r'{ V_found = 1; \g<0> }')]
@@ -44,10 +44,10 @@ UNITS.append(dict(
     name='mpz_scan0', props=['C10', 'C04', 'C15'], source='mpz/scan0.c', contracts=['mpz.h', 'c10.h'], enforce=['__gmpz_scan0'], assumptions=LZ_ASM,
     functions={'__gmpz_scan0': dict(
         entry=ENTRY, inserts=COMMON_INS,
-        loops={0: dict(scalars=['limb'], havoc_targets=['p'], havoc='{ long V_d = nondet_long (); __CPROVER_assume (V_s <= V_d && V_d < V_n); p = u_ptr + V_d; }',
+        loops={0: dict(scalars=['limb'], havoc_targets=['p'], havoc='{ long V_d = nondet_long (); __CPROVER_assume (V_s <= V_d && V_d < V_n); p = u_ptr + V_d; }', havoc_inv={'V_d': '(p - u_ptr)'},
                        inv=(skip_full(1) + ' && size >= 0 && limb == (PC == V_s ? (u_ptr[PC] | LOW) : u_ptr[PC])').replace('PC', PC).replace('LOW', LOW), dec='V_n - ' + PC),
                1: Q_LOOP,
-               2: dict(scalars=['limb'], havoc_targets=['p'], havoc='{ long V_d = nondet_long (); __CPROVER_assume (V_s < V_d && V_d < V_n); p = u_ptr + V_d; }',
+               2: dict(scalars=['limb'], havoc_targets=['p'], havoc='{ long V_d = nondet_long (); __CPROVER_assume (V_s < V_d && V_d < V_n); p = u_ptr + V_d; }', havoc_inv={'V_d': '(p - u_ptr)'},
                        inv=nz_search(1), dec='V_n - ' + PC)})},
     harness='void h_mpz_scan0 (void) {\n' + OBJ + '  mp_bitcnt_t sb = nondet_ulong (); gb = nondet_ulong ();\n  __gmpz_scan0 (&U, sb);\n}', timeout=900,
     selftest=[('__gmpz_scan0', r'limb--;', ';'), ('__gmpz_scan0', r'return \(mp_bitcnt_t\) abs_size \* \(64 - 0\);', 'return (mp_bitcnt_t) abs_size * (64 - 0) - 1;'),
@@ -68,12 +68,12 @@ UNITS.append(dict(
                  (r'if \(size >= 0\)', r'__CPROVER_assume (starting_limb >= g_lz || limb == 0); \g<0>'),
                  (r'goto inverted;', r'{ V_found = 1; \g<0> }'),
                  (r'inverted:', r'\g<0> V_pre = limb;')],
-        loops={0: dict(scalars=['limb'], havoc_targets=['p'], havoc='{ long V_d = nondet_long (); __CPROVER_assume (V_s < V_d && V_d < V_n); p = u_ptr + V_d; }',
+        loops={0: dict(scalars=['limb'], havoc_targets=['p'], havoc='{ long V_d = nondet_long (); __CPROVER_assume (V_s < V_d && V_d < V_n); p = u_ptr + V_d; }', havoc_inv={'V_d': '(p - u_ptr)'},
                        inv=POS_NZ, dec='V_n - ' + PC),
                1: Q_LOOP,
-               2: dict(scalars=['limb'], havoc_targets=['p'], havoc='{ long V_d = nondet_long (); __CPROVER_assume (V_s <= V_d && V_d < g_lz); p = u_ptr + V_d; }',
+               2: dict(scalars=['limb'], havoc_targets=['p'], havoc='{ long V_d = nondet_long (); __CPROVER_assume (V_s <= V_d && V_d < g_lz); p = u_ptr + V_d; }', havoc_inv={'V_d': '(p - u_ptr)'},
                        inv=UP_TO_LZ, dec='g_lz - ' + PC, end='__CPROVER_assume (%s >= g_lz || limb == 0);' % PC),
-               3: dict(scalars=['limb'], havoc_targets=['p'], havoc='{ long V_d = nondet_long (); __CPROVER_assume (V_s <= V_d && V_d < V_n); p = u_ptr + V_d; }',
+               3: dict(scalars=['limb'], havoc_targets=['p'], havoc='{ long V_d = nondet_long (); __CPROVER_assume (V_s <= V_d && V_d < V_n); p = u_ptr + V_d; }', havoc_inv={'V_d': '(p - u_ptr)'},
                        inv=INV_SKIP, dec='V_n - ' + PC)})},
     harness='void h_mpz_scan1 (void) {\n' + OBJ + '  mp_bitcnt_t sb = nondet_ulong (); gb = nondet_ulong ();\n  __gmpz_scan1 (&U, sb);\n}', timeout=900,
     selftest=[('__gmpz_scan1', r'limb = -limb;', 'limb = ~limb;'), ('__gmpz_scan1', r'limb--;', ';'),
